@@ -480,7 +480,7 @@ SimpleString SimpleString::printable() const
         }
         else if (isControl(c))
         {
-            SimpleString hexEscapeCode = StringFromFormat("\\x%02X ", c);
+            SimpleString hexEscapeCode = StringFromFormat("\\x%02X ", (unsigned char) c);
             StrNCpy(&result.buffer_[j], hexEscapeCode.asCharString(), 4);
             j += 4;
         }
